@@ -49,12 +49,23 @@ func (s *Segment) getDocStoredOffsets(docNum uint64) (indexOffset, storedOffset,
 		return 0, 0, 0, 0, 0, err
 	}
 
-	metaLenData := s.storedFieldChunkUncompressed[int(storedOffset):int(storedOffset+binary.MaxVarintLen64)]
+	// the varint look-ahead must not reach beyond the decompressed block: a short record
+	// at the end of a block has fewer than MaxVarintLen64 bytes after its start
+	blockLen := uint64(len(s.storedFieldChunkUncompressed))
+	metaLenEnd := storedOffset + binary.MaxVarintLen64
+	if metaLenEnd > blockLen {
+		metaLenEnd = blockLen
+	}
+	metaLenData := s.storedFieldChunkUncompressed[int(storedOffset):int(metaLenEnd)]
 	var read int
 	metaLen, read = binary.Uvarint(metaLenData)
 	n += uint64(read)
 
-	dataLenData := s.storedFieldChunkUncompressed[int(storedOffset+n):int(storedOffset+n+binary.MaxVarintLen64)]
+	dataLenEnd := storedOffset + n + binary.MaxVarintLen64
+	if dataLenEnd > blockLen {
+		dataLenEnd = blockLen
+	}
+	dataLenData := s.storedFieldChunkUncompressed[int(storedOffset+n):int(dataLenEnd)]
 	dataLen, read = binary.Uvarint(dataLenData)
 	n += uint64(read)
 
